@@ -53,7 +53,10 @@ async def reset_interrupted_steps(workflow: Workflow, reporter: ReporterClient):
         )
         # Interrupted hash jobs (related to `UNCONFIRMED` files) don't need to be handled here.
         # See `rescan_files()` for how they are resolved.
-        failed_steps = workflow.steps(StepState.FAILED)
+        # Detached steps are included: a step that was interrupted below a detached creator
+        # is attached again with its state when that creator is recycled,
+        # and would then stay FAILED without ever being tried again.
+        failed_steps = workflow.steps(StepState.FAILED, include_detached=True)
 
     # Make all failed steps pending again, as they can be retried.
     if len(failed_steps) > 0:
